@@ -435,6 +435,7 @@ def gen_wrappers(draw, tier="quick"):
         "threads": draw(st.sampled_from([1, 2, 4, 16])),
         # "for all values": amplitudes of any magnitude (fields in SI units of tiny or huge quantities)
         "var": draw(st.one_of(st.just(1.7), st.integers(-60, 60).map(lambda e: 1.7 * 10.0**e))),
+        "len_exp": draw(st.one_of(st.just(0), st.integers(-9, 9))),
     }
 
 
@@ -454,9 +455,13 @@ def check_wrappers(case, rec):
             gs.config.NUM_THREADS = nt
             with quiet():
                 if w in ("srf", "vector", "fourier"):
-                    model = gs.Gaussian(dim=dim, var=case.get("var", 1.7), len_scale=1.3)
+                    # unit of length 10^e: wave numbers of any magnitude reach the kernels unchanged
+                    sc_ = 10.0 ** case.get("len_exp", 0)
+                    if nt is None:
+                        pos = pos * sc_
+                    model = gs.Gaussian(dim=dim, var=case.get("var", 1.7), len_scale=1.3 * sc_)
                     if w == "fourier":
-                        srf = gs.SRF(model, generator="Fourier", period=8.0, mode_no=4 + 8 * (case["seed"] % 2), seed=case["seed"] % 1000)
+                        srf = gs.SRF(model, generator="Fourier", period=8.0 * sc_, mode_no=4 + 8 * (case["seed"] % 2), seed=case["seed"] % 1000)
                     elif w == "vector":
                         srf = gs.SRF(model, generator="VectorField", mode_no=24, seed=case["seed"] % 1000, mean_velocity=1.5)
                     else:
